@@ -48,6 +48,7 @@ var listener struct {
 func startListener() error {
 	listener.once.Do(func() {
 		dir, _ := ioutil.TempDir("", "c12l-")
+		cleanupDirs = append(cleanupDirs, dir)
 		rt := rtFunc(func(r *http.Request) (*http.Response, error) {
 			listener.mu.Lock()
 			listener.seen = append(listener.seen, r.URL.String())
